@@ -27,7 +27,7 @@ package dig
 // A decoded cell is empty or a sub-range of the input bytes (inside len, not merely cap).
 //@ spec within(s []byte, inp []byte) bool = len(s) == 0 || (base(s) == base(inp) && off(inp) <= off(s) && off(s) + len(s) <= off(inp) + len(inp))
 
-//@ func (*Result).GetRow props=C10,C09,C11
+//@ func (*Result).GetRow props=C10,C09,C11,C01
 //@   requires resInv(r)
 //@   ensures [cleared] forall j int :: 0 <= j && j < len(result) ==> len(result[j]) == 0
 //@   ensures [frame] r.ncols == old(r.ncols) && r.n == old(r.n) + 1 && r.t == old(r.t) && r.singleton == old(r.singleton)
@@ -143,7 +143,7 @@ package dig
 // booleans to d[31] == 1, strings and byte strings unchanged, integers to the
 // 256-bit value of the word (uint256.SetBytes, assumed).
 //@ spec bytesTyped(t string) bool = !hasprefix(t, "int") && !hasprefix(t, "uint") && t != "bool" && t != "string"
-//@ func dbtype props=C11
+//@ func dbtype props=C11,C10
 //@   ensures [bytes-typed] bytesTyped(abitype) ==> istype(result, "[]byte")
 //@   ensures [uint-nonnil] !hasprefix(abitype, "int") && hasprefix(abitype, "uint") ==> unbox(result, "*uint256.Int") != nil
 //@   ensures [int] hasprefix(abitype, "int") ==> istype(result, "*negInt") && (*unbox(result, "*negInt")).i != nil && *(*unbox(result, "*negInt")).i == u256of(d)
